@@ -2,7 +2,9 @@
 """Regenerates /verif/MANIFEST.json from lib/props.py (so that it is always schema-valid)."""
 import json, os, sys
 sys.path.insert(0, os.path.dirname(os.path.abspath(__file__)))
-from props import PROPS, NOT_APPLICABLE, HOOK_COMMITS
+from props import PROPS as ALL_PROPS, NOT_APPLICABLE, HOOK_COMMITS
+# a props file with "claimed": false is runnable through ./check but not yet registered
+PROPS = {k: v for k, v in ALL_PROPS.items() if v.get("claimed", True)}
 
 ROOT = os.path.dirname(os.path.dirname(os.path.abspath(__file__)))
 props = [json.loads(l) for l in open(os.path.join(ROOT, "properties.jsonl"))]
